@@ -1,22 +1,29 @@
-"""Native replays: rebuild the failing input from the verifier's counterexample and run the real code
-(compiled from /repo's working tree by tools/native.sh) against an independent oracle.
+"""Native replays: rebuild failing inputs from the verifier's counterexample where its values map to API inputs, and
+sweep the neighbourhood of the failed obligation (scenario families per property, seeded by VERIF_SEED) on the REAL
+code compiled from /repo's working tree (tools/native.sh) against independent oracles.  A replay that reproduces the
+wrong behaviour natively confirms the violation; otherwise the VIOLATION line ends with no-failing-input-found.
 Each handler returns (confirmed: bool, detail: dict)."""
-import json, os, subprocess, sys, tempfile
+import json, os, random, subprocess, sys
 from .core import ROOT, BUILD
+
+SEED = int(os.environ.get("VERIF_SEED", "0") or 0)
 
 def _native(name, extra=()):
     exe = os.path.join(BUILD, "native-" + name)
     r = subprocess.run([os.path.join(ROOT, "tools", "native.sh"), exe, os.path.join(ROOT, "replay", name + ".c")] + list(extra),
                        capture_output=True, text=True)
-    if r.returncode != 0:
+    if r.returncode != 0 or not os.path.exists(exe):
         raise RuntimeError("native build failed: " + r.stderr[-800:])
     return exe
 
-def _run(cmd, timeout=120, env=None):
+def _run(cmd, timeout=180, env=None):
     e = dict(os.environ); e["ASAN_OPTIONS"] = "detect_leaks=0"
     if env: e.update(env)
-    r = subprocess.run(cmd, capture_output=True, text=True, timeout=timeout, env=e)
-    return r.returncode, (r.stdout + r.stderr)[-1500:]
+    try:
+        r = subprocess.run(cmd, capture_output=True, text=True, timeout=timeout, env=e)
+        return r.returncode, (r.stdout + r.stderr)[-1200:]
+    except subprocess.TimeoutExpired:
+        return 124, "timeout"
 
 def _int(v, default=0):
     try:
@@ -26,6 +33,15 @@ def _int(v, default=0):
         return int(v)
     except Exception:
         return default
+
+def _sweep(exe, scenarios, label):
+    tried = 0
+    for sc in scenarios:
+        tried += 1
+        rc, out = _run([exe] + [str(x) for x in sc])
+        if rc == 1:
+            return True, {"scenario": " ".join(str(x) for x in sc), "rc": rc, "output": out, "scenarios_tried": tried, "family": label}
+    return False, {"scenarios_tried": tried, "family": label, "note": "no scenario of the family failed natively"}
 
 def c16(rec, wd):
     inp = rec.get("counterexample_inputs", {})
@@ -39,7 +55,86 @@ def c16(rec, wd):
     rc, out = _run(cmd)
     return rc == 1, {"cmd": " ".join(cmd), "rc": rc, "output": out}
 
-REPLAYS = {"c16": c16}
+def c03(rec, wd):
+    exe = _native("c03_seek"); rng = random.Random(SEED + 3)
+    tmp = os.path.join(BUILD, "replay-c03.mtbl")
+    scen = []
+    for kind in ("iter", "range"):
+        scen.append([tmp, 40, 200, kind] + ["n"] * 20 + ["s0", "n", "n"])
+        for j in range(0, 80, 7): scen.append([tmp, 40, 200, kind, f"s{j}", "n", "n", f"s{j}", "n"])
+        for _ in range(120):
+            ops = [rng.choice(["n", "n", f"s{rng.randrange(0, 84)}"]) for _ in range(rng.randrange(3, 14))]
+            scen.append([tmp, rng.choice([12, 40]), rng.choice([60, 200]), kind] + ops)
+    return _sweep(exe, scen, "reader iterator histories of next/seek on multi-block tables (restart interval 3)")
+
+def c04(rec, wd):
+    exe = _native("c04_merge", ["-fsanitize=address"]); rng = random.Random(SEED + 4)
+    keys = ["", "a", "ab", "b", "c", "d"]
+    def src():
+        ks = sorted(set(rng.sample(keys, rng.randrange(0, 4))))
+        return ",".join(f"{k}={rng.randrange(1, 9)}" for k in ks) or "-"
+    scen = [[1, "=E,b=B", "a=A", "--", "n", "n", "n", "n"], [1, "a=1,c=3", "b=2,c=4,d=5", "--", "n", "n", "sb", "n", "n", "n", "n"],
+            [1, "a=1,c=3,e=5", "a=2,x=9", "--", "n", "sf", "sc", "n", "n", "n", "n"]]
+    for _ in range(150):
+        ops = [rng.choice(["n", "n", "s" + rng.choice(keys)]) for _ in range(rng.randrange(2, 10))]
+        scen.append([1] + [src() for _ in range(rng.randrange(1, 4))] + ["--"] + ops)
+    return _sweep(exe, scen, "merger over user-defined sources (buffers invalidated), merge function set, histories of next/seek")
+
+def c07(rec, wd):
+    exe = _native("c07_fileset", ["-fsanitize=address"]); rng = random.Random(SEED + 7)
+    d = os.path.join(BUILD, "replay-c07"); os.makedirs(d, exist_ok=True)
+    scen = [[d, "iA", "iB", "w13", "RA", "RB", "iB"], [d, "oA", "w34", "RB", "iB", "cA", "iA", "iB"]]
+    ops = ["iA", "iB", "RA", "RB", "rA", "rB", "w12", "w13", "w234", "w1", "w34"]
+    for _ in range(60): scen.append([d] + [rng.choice(ops) for _ in range(rng.randrange(3, 10))])
+    return _sweep(exe, scen, "fileset handle + dup, reload interval NEVER, histories of setfile rewrites / reload / reload_now / iterate")
+
+def c15(rec, wd):
+    exe = _native("c15_rt"); inp = rec.get("counterexample_inputs", {})
+    scen = []
+    size = _int(inp.get("in_size", 0)); alg = {"MTBL_COMPRESSION_SNAPPY": 1, "MTBL_COMPRESSION_ZLIB": 2, "MTBL_COMPRESSION_LZ4": 3, "MTBL_COMPRESSION_LZ4HC": 4, "MTBL_COMPRESSION_ZSTD": 5}
+    a = next((v for k, v in alg.items() if k in str(inp.get("in_alg", ""))), None)
+    lvl = "d" if "TRUE" in str(inp.get("in_default", "")).upper() else str(_int(inp.get("in_level", 0)))
+    if a and size <= (5 << 30): scen += [[a, lvl, size, "r"], [a, lvl, size, "z"]]
+    for a2 in (1, 2, 3, 4, 5):
+        for n in (0, 1, 7, 8, 100, 100000, 1 << 20):
+            for l in ("d", "-2", "0", "9", "99", "-1000"):
+                scen.append([a2, l, n, "z"]); scen.append([a2, l, n, "r"])
+    return _sweep(exe, scen, "compress/decompress round trips (counterexample size first, then a grid of algorithms, levels, sizes, contents)")
+
+def c18(rec, wd):
+    exe = _native("c18_sorter", ["-fsanitize=address"]); d = os.path.join(BUILD, "replay-c18"); os.makedirs(d, exist_ok=True)
+    scen = [[d, 1, 1, 0, 0], [d, 2, 0, 0, 1], [d, 3, 0, 2, 0], [d, 2, 0, 2, 1], [d, 1, 0, 0, 0]]
+    return _sweep(exe, scen, "sorter life cycles: chunks x failing merge x pool x iterate; descriptors, chunk mappings, temp files, LeakSanitizer")
+
+def c19(rec, wd):
+    exe = _native("c19_open"); mk = os.path.join(BUILD, "native-mk19")
+    src = os.path.join(BUILD, "mk19.c")
+    open(src, "w").write('#include <mtbl.h>\n#include <unistd.h>\nint main(int c,char**v){unlink(v[1]);struct mtbl_writer_options*o=mtbl_writer_options_init();mtbl_writer_options_set_compression(o,MTBL_COMPRESSION_NONE);struct mtbl_writer*w=mtbl_writer_init(v[1],o);mtbl_writer_add(w,(uint8_t*)"a",1,(uint8_t*)"1",1);mtbl_writer_add(w,(uint8_t*)"b",1,(uint8_t*)"2",1);mtbl_writer_destroy(&w);return 0;}\n')
+    subprocess.run([os.path.join(ROOT, "tools", "native.sh"), mk, src], capture_output=True)
+    good = os.path.join(BUILD, "replay-c19-good.mtbl"); subprocess.run([mk, good])
+    data = bytearray(open(good, "rb").read()); rng = random.Random(SEED + 19)
+    import struct
+    off = struct.unpack("<Q", data[-512:-504])[0]
+    files = []
+    def emit(b, tag):
+        p = os.path.join(BUILD, f"replay-c19-{len(files)}.mtbl"); open(p, "wb").write(bytes(b)); files.append(p)
+    for v in (bytes([0xff, 0xff, 0xff, 0xff, 0x07]), bytes([0xff] * 9 + [0x01]), bytes([0xf2] + [0xff] * 8 + [0x01]), bytes([0x80, 0x80, 0x80, 0x80, 0x10])):
+        b = bytearray(data); b[off:off + len(v)] = v; emit(b, "len")
+    for o2 in (0, 1, len(data) - 525, len(data) - 512, 2**64 - 1, 2**63):
+        b = bytearray(data); b[-512:-504] = struct.pack("<Q", o2 % 2**64); emit(b, "off")
+    for n in range(512, 530):
+        for magic in (b"LBTM", b"\x76\x66\x84\x77"):
+            b = bytearray(rng.randrange(256) for _ in range(n)); b[-4:] = magic; b[-512:-504] = struct.pack("<Q", rng.choice([0, 1, 5, 2**64 - 1, 2**64 - 520])); emit(b, "tiny")
+    for n in (0, 100, 511, len(data) - 1, len(data) - 100): emit(data[:n], "trunc")
+    scen = [[f, v] for f in files for v in (0, 1)]
+    ok, det = _sweep(exe, scen, "open damaged tables: index length prefix, index offset, trailer-only files, truncations; verify on/off")
+    return ok, det
+
+def c20(rec, wd):
+    exe = _native("c20_frag", ["-Dwrite=vg_shim_write"])
+    return _sweep(exe, [[os.path.join(BUILD, "replay-c20.mtbl"), SEED + 1]], "every single EINTR / short write, every EINTR-then-short pair, 200 seeded random fault plans on a 12-entry table")
+
+REPLAYS = {"c16": c16, "c03": c03, "c02": c03, "c04": c04, "c07": c07, "c15": c15, "c18": c18, "c19": c19, "c20": c20}
 
 def replay_file(path):
     rec = json.load(open(path))
